@@ -295,6 +295,12 @@ func runC02(c *core.Ctx) {
 			}
 			w.Write(p, k.content())
 		}
+		if w.Hist%12 == 5 {
+			// scale: a staging-area file well beyond 4 KiB, written by one process and read by the next ones
+			k.Populate(130 + k.R.IntN(200))
+			k.goit("add", ".")
+			k.Do("commit")
+		}
 		steps := c.Pick(36, 40)
 		for i := 0; i < steps; i++ {
 			k.Step()
